@@ -26,7 +26,49 @@ def _with_exit_offsets(code):
         if (a.opname == 'LOAD_CONST' and a.argval is None and b.opname == 'LOAD_CONST' and b.argval is None
                 and c.opname == 'LOAD_CONST' and c.argval is None and d.opname == 'CALL' and d.arg == 2):
             out.add(a.offset)
+            # `return` / `break` / `continue` inside the block: the exit sequence is preceded, on the same
+            # line entry, by stack shuffling (SWAP / COPY / POP_TOP) - the line event fires there
+            j = i
+            while j > 0 and i - j < 4 and ins[j].starts_line is None and \
+                    ins[j - 1].opname in ('SWAP', 'COPY', 'POP_TOP', 'NOP'):
+                j -= 1
+                out.add(ins[j].offset)
     return frozenset(out)
+
+
+_CLEANUP_LINES = {}
+
+
+def cleanup_lines(filename):
+    """Source lines of a file that belong to clean-up code: bodies of `finally:` clauses, of `except`
+    handlers that end in a bare `raise` (undo-and-re-raise), and of `__exit__` / `__aexit__` / `__del__`
+    methods.  An asynchronous exception that arrives *inside* clean-up code defeats the clean-up in any
+    Python program (the language offers no way to mask it), so an injected cancellation / allocation
+    failure that falls there is delivered at the next line outside it instead."""
+    got = _CLEANUP_LINES.get(filename)
+    if got is not None:
+        return got
+    import ast
+    lines = set()
+    try:
+        with open(filename, 'rb') as fh:
+            tree = ast.parse(fh.read(), filename)
+    except Exception:
+        tree = None
+    if tree is not None:
+        def span(stmts):
+            if stmts:
+                lines.update(range(stmts[0].lineno, (stmts[-1].end_lineno or stmts[-1].lineno) + 1))
+        for node in ast.walk(tree):
+            if isinstance(node, (ast.Try, getattr(ast, 'TryStar', ast.Try))):
+                span(node.finalbody)
+                for h in node.handlers:
+                    if h.body and isinstance(h.body[-1], ast.Raise) and h.body[-1].exc is None:
+                        span(h.body)
+            elif isinstance(node, (ast.FunctionDef, ast.AsyncFunctionDef)) and node.name in ('__exit__', '__aexit__', '__del__'):
+                span(node.body)
+    got = _CLEANUP_LINES[filename] = frozenset(lines)
+    return got
 
 
 def sut_code_objects(modules):
@@ -197,7 +239,7 @@ class SimCondition(object):
     """threading.Condition for the system under test"""
 
     def __init__(self, lock=None):
-        self._lock = lock if lock is not None else SimLock(threading.RLock())
+        self._lock = simlock_for(lock) if lock is not None else SimLock(threading.RLock())
         self._waiters = []
 
     def acquire(self, *a, **k):
@@ -251,6 +293,36 @@ class SimCondition(object):
     notifyAll = notify_all
 
 
+_SIMLOCKS = {}
+
+
+def simlock_for(real):
+    """the one SimLock standing for a given real lock (a Condition built on a lock must share it)"""
+    if isinstance(real, SimLock):
+        return real
+    sl = _SIMLOCKS.get(id(real))
+    if sl is None or sl._real is not real:
+        sl = _SIMLOCKS[id(real)] = SimLock(real)
+    return sl
+
+
+def _convert_sync_object(val):
+    """scheduler-aware stand-in for an existing threading object of the system under test, or None"""
+    lock_types = (type(threading.Lock()), type(threading.RLock()))
+    if isinstance(val, lock_types):
+        return simlock_for(val)
+    if isinstance(val, (threading.Semaphore, threading.BoundedSemaphore)):
+        return SimSemaphore(val._value, bounded=isinstance(val, threading.BoundedSemaphore))
+    if isinstance(val, threading.Event):
+        ev = SimEvent()
+        ev._flag = val.is_set()
+        return ev
+    if isinstance(val, threading.Condition):
+        inner = getattr(val, '_lock', None)
+        return SimCondition(simlock_for(inner) if inner is not None else None)
+    return None
+
+
 def wrap_module_locks(modules):
     """Replace the lock objects owned by the given SUT modules by SimLocks: module-level names, class
     attributes, and attributes / items of module-level objects and containers (a private cache object
@@ -262,12 +334,15 @@ def wrap_module_locks(modules):
 
     def visit(holder, get_items, set_item, depth):
         for key, val in get_items():
-            if isinstance(val, lock_types):
+            conv = _convert_sync_object(val)
+            if conv is not None:
                 try:
-                    set_item(key, SimLock(val))
+                    set_item(key, conv)
                     n[0] += 1
                 except Exception:
                     pass
+            elif isinstance(val, (SimLock, SimEvent, SimSemaphore, SimCondition)):
+                pass
             elif depth < 3 and id(val) not in seen:
                 seen.add(id(val))
                 descend(val, depth + 1)
@@ -316,17 +391,6 @@ def wrap_module_locks(modules):
                 setattr(mod, key, proxy.BoundedSemaphore)
             elif val is threading.Condition:
                 setattr(mod, key, SimCondition)
-            elif isinstance(val, sem_types):
-                setattr(mod, key, SimSemaphore(val._value, bounded=isinstance(val, threading.BoundedSemaphore)))
-                n[0] += 1
-            elif isinstance(val, threading.Event):
-                ev = SimEvent()
-                ev._flag = val.is_set()
-                setattr(mod, key, ev)
-                n[0] += 1
-            elif isinstance(val, threading.Condition):
-                setattr(mod, key, SimCondition())
-                n[0] += 1
             elif val is threading:
                 setattr(mod, key, proxy)
     for mod in modules:
@@ -646,7 +710,21 @@ class Sched(object):
         u = self._unsafe.get(code)
         if u is None:
             u = self._unsafe[code] = _with_exit_offsets(code)
-        return frame.f_lasti in u
+        if frame.f_lasti in u:
+            return True
+        # inside clean-up code of the system under test (this frame or a caller's)?
+        f = frame
+        depth = 0
+        while f is not None and depth < 40:
+            fn = f.f_code.co_filename
+            flag = self._filecache.get(fn)
+            if flag is None:
+                flag = self._filecache[fn] = bool(self.is_sut_file(fn))
+            if flag and (f.f_lineno or 0) in cleanup_lines(fn):
+                return True
+            f = f.f_back
+            depth += 1
+        return False
 
     def unblock(self, resource):
         """a lock / semaphore / event / condition of the system under test was released or signalled"""
